@@ -75,6 +75,7 @@ inductive Exc
   | protocolError      -- autobahn.wamp.exception.ProtocolError
   | transportLost      -- autobahn.wamp.exception.TransportLost
   | typeError          -- TypeError (F10)
+  | attributeError     -- AttributeError (`call_request.options` is None)
   | exception          -- plain `Exception(...)` ("subscription no longer active", "session already joined", …)
   | alreadyCalled      -- AlreadyCalledError / InvalidStateError: a second completion of a Deferred/Future
   | sendFailed         -- whatever `ITransport.send` raised
@@ -275,6 +276,7 @@ deriving DecidableEq, Repr
 /-- one record type for the six `*Request` classes (unused fields stay at their defaults) -/
 structure Req where
   fut : FutId
+  hasOpts : Bool := false             -- CallRequest.options is not None
   uri : Uri := 0                      -- CallRequest.procedure / SubscribeRequest.topic / RegisterRequest.procedure
   handler : HId := 0                  -- SubscribeRequest.handler.fn / RegisterRequest.endpoint.fn
   detailsArg : Option Key := none     -- Handler.details_arg / Endpoint.details_arg
@@ -289,6 +291,7 @@ structure Fut where
   kind : Kind
   cell : Option Outcome := none
   count : Nat := 0                    -- number of completion attempts (resolve / reject / cancel)
+  watched : Bool := true              -- the API call returned it, so the user's callbacks hang on it
 deriving DecidableEq, Repr
 
 /-- a `Subscription` object in `_subscriptions[id]` -/
@@ -368,8 +371,10 @@ def settle (s : Sess) (f : FutId) (o : Outcome) : Sess × List SOut :=
       ({ s with futs := s.futs.set f { x with count := x.count + 1 } }, [.raise_ .alreadyCalled])
     else
       let s1 := { s with futs := s.futs.set f { x with cell := some o, count := x.count + 1 } }
-      let r := emitCb s1 (.callback f o)
-      (r.1, .complete f o :: r.2)
+      if x.watched then
+        let r := emitCb s1 (.callback f o)
+        (r.1, .complete f o :: r.2)
+      else (s1, [.complete f o])
 
 /-! ## API calls -/
 
@@ -385,11 +390,19 @@ inductive Api
   | leave                                          -- STUB
 deriving DecidableEq, Repr
 
-/-- the tail common to all request APIs: `self._transport.send(msg)`; `keep = false` is the
+/-- the tail common to all request APIs: `self._transport.send(msg)` and `return on_reply`; `keep = false` is the
 `except: del self._xxx_reqs[request_id]; raise` of `call` and `publish` -/
-def sendReq (s : Sess) (k : Kind) (id : ReqId) (m : OutMsg) (ret : SOut) (keep : Bool) : SendRes → Sess × List SOut
-  | .ok => (s, [.send m, ret])
-  | .raises => (if keep then s else s.setTbl k (adel id (s.tbl k)), [.send m, .raise_ .sendFailed])
+def Sess.unwatch (s : Sess) (f : FutId) : Sess :=
+  match s.futs[f]? with
+  | some x => { s with futs := s.futs.set f { x with watched := false } }
+  | none => s
+
+def sendReq (s : Sess) (k : Kind) (id : ReqId) (m : OutMsg) (f : Option FutId) (keep : Bool) : SendRes → Sess × List SOut
+  | .ok => (s, [.send m, match f with | some f => .ret f | none => .retNone])
+  | .raises =>
+    -- the future (if any) never reaches the caller
+    let s := match f with | some f => s.unwatch f | none => s
+    (if keep then s else s.setTbl k (adel id (s.tbl k)), [.send m, .raise_ .sendFailed])
 
 def apiCall (s : Sess) (uri : Uri) (args : Args) (kwargs : Kwargs) (opts : Option CallOpts) (snd : SendRes) :
     Sess × List SOut :=
@@ -397,9 +410,9 @@ def apiCall (s : Sess) (uri : Uri) (args : Args) (kwargs : Kwargs) (opts : Optio
   let (s, id) := s.drawId
   let (s, f) := s.newFut .call
   let m : OutMsg := { typ := .call, req := id, opts := optAttrs CallOpts.attrs opts, uri := uri, args := args, kwargs := kwargs }
-  let r : Req := { fut := f, uri := uri, onProgress := opts.bind (·.onProgress), details := (opts.map (·.details)).getD false }
+  let r : Req := { fut := f, hasOpts := opts.isSome, uri := uri, onProgress := opts.bind (·.onProgress), details := (opts.map (·.details)).getD false }
   let s := s.setTbl .call (aset id r s.tCall)
-  sendReq s .call id m (.ret f) false snd
+  sendReq s .call id m (some f) false snd
 
 def apiPublish (s : Sess) (uri : Uri) (args : Args) (kwargs : Kwargs) (opts : Option PubOpts) (snd : SendRes) :
     Sess × List SOut :=
@@ -409,9 +422,9 @@ def apiPublish (s : Sess) (uri : Uri) (args : Args) (kwargs : Kwargs) (opts : Op
   if (opts.bind (·.acknowledge)).getD false then
     let (s, f) := s.newFut .publish
     let s := s.setTbl .publish (aset id { fut := f } s.tPublish)
-    sendReq s .publish id m (.ret f) false snd
+    sendReq s .publish id m (some f) false snd
   else
-    sendReq s .publish id m .retNone false snd
+    sendReq s .publish id m none false snd
 
 def apiSubscribe (s : Sess) (h : HId) (topic : Uri) (opts : Option SubOpts) (snd : SendRes) : Sess × List SOut :=
   if !s.transport then (s, [.raise_ .transportLost]) else
@@ -420,7 +433,7 @@ def apiSubscribe (s : Sess) (h : HId) (topic : Uri) (opts : Option SubOpts) (snd
   let r : Req := { fut := f, uri := topic, handler := h, detailsArg := opts.bind (·.detailsArg) }
   let s := s.setTbl .subscribe (aset id r s.tSubscribe)
   let m : OutMsg := { typ := .subscribe, req := id, opts := optAttrs SubOpts.attrs opts, uri := topic }
-  sendReq s .subscribe id m (.ret f) true snd
+  sendReq s .subscribe id m (some f) true snd
 
 def apiRegister (s : Sess) (h : HId) (proc : Uri) (opts : Option RegOpts) (snd : SendRes) : Sess × List SOut :=
   if !s.transport then (s, [.raise_ .transportLost]) else
@@ -429,7 +442,7 @@ def apiRegister (s : Sess) (h : HId) (proc : Uri) (opts : Option RegOpts) (snd :
   let r : Req := { fut := f, uri := proc, handler := h, detailsArg := opts.bind (·.detailsArg) }
   let s := s.setTbl .register (aset id r s.tRegister)
   let m : OutMsg := { typ := .register, req := id, opts := optAttrs RegOpts.attrs opts, uri := proc }
-  sendReq s .register id m (.ret f) true snd
+  sendReq s .register id m (some f) true snd
 
 /-- the subscription id under which the (active) `Subscription` object `obj` is attached -/
 def findSub (obj : FutId) : List (SubId × List SubRec) → Option SubId
@@ -459,7 +472,7 @@ def apiUnsubscribe (s : Sess) (obj : FutId) (snd : SendRes) : Sess × List SOut 
       let (s, id) := s.drawId
       let (s, f) := s.newFut .unsubscribe
       let s := s.setTbl .unsubscribe (aset id { fut := f, target := sid } s.tUnsubscribe)
-      sendReq s .unsubscribe id { typ := .unsubscribe, req := id, uri := sid } (.ret f) true snd
+      sendReq s .unsubscribe id { typ := .unsubscribe, req := id, uri := sid } (some f) true snd
     else
       -- `txaio.create_future_success(scount)`
       let (s, f) := s.newFut .unsubscribe
@@ -481,7 +494,7 @@ def apiUnregister (s : Sess) (obj : FutId) (snd : SendRes) : Sess × List SOut :
     let (s, id) := s.drawId
     let (s, f) := s.newFut .unregister
     let s := s.setTbl .unregister (aset id { fut := f, target := rid } s.tUnregister)
-    sendReq s .unregister id { typ := .unregister, req := id, uri := rid } (.ret f) true snd
+    sendReq s .unregister id { typ := .unregister, req := id, uri := rid } (some f) true snd
 
 /-- the request id a pending call future is recorded under (the `request_id` closed over by `canceller`) -/
 def findFut (f : FutId) : Table → Option ReqId
@@ -676,6 +689,8 @@ def onEstablished (s : Sess) (beh : List HAct) : InMsg → Sess × List SOut
     | none => (s, [.raise_ .protocolError])
     | some r =>
       if progress then
+        -- `if call_request.options.on_progress:` — AttributeError when the call was made without options
+        if !r.hasOpts then (s, [.raise_ .attributeError]) else
         match r.onProgress with
         | none => (s, [])
         | some h =>
